@@ -2,6 +2,7 @@ package c03
 
 import (
 	"fmt"
+	"github.com/influxdata/kapacitor/edge"
 	"strconv"
 	"strings"
 	"testing"
@@ -309,6 +310,24 @@ func runChunk(t *testing.T, cfg Config, cases []Case) ([]*ostate, error) {
 			}
 			pending[i] = append(pending[i], b)
 		}
+		// every emitted window is looked at again at the end of the run: it must read as it did when emitted
+		type kept struct {
+			then string
+			raw  edge.BufferedBatchMessage
+		}
+		var keptAll []kept
+		env.Diag.OnBatchRaw = func(prefix string, b kit.Bt, raw edge.BufferedBatchMessage) {
+			keptAll = append(keptAll, kept{b.String(), raw})
+		}
+		defer func() {
+			for _, k := range keptAll {
+				if now := kit.BtOf(k.raw).String(); now != k.then {
+					if i, err := strconv.Atoi(k.raw.Tags()["g"]); err == nil && i >= 0 && i < len(states) {
+						states[i].probs = append(states[i].probs, problem{"emitted-window-changed", fmt.Sprintf("a window emitted as %s reads %s at the end of the run (the emitted message shares memory with the node's buffer)", k.then, now)})
+					}
+				}
+			}
+		}()
 		if _, err := env.StartStream("t", cfg.script()); err != nil {
 			runErr = err
 			return
@@ -371,9 +390,9 @@ func configs(thorough bool) []Config {
 					if e == 0 && (al || fi) {
 						continue
 					}
-					if fi && p <= e {
-						continue // documented: fillPeriod only applies if period > every
-					}
+					// (the node documentation says fillPeriod "only applies if the period is greater than the every
+					// value"; the property's quantifier has no such restriction and the implementation delays the first
+					// window to a full period for every combination: all combinations are enumerated)
 					r = append(r, Config{Period: p, Every: e, Align: al, Fill: fi})
 				}
 			}
@@ -400,7 +419,6 @@ func TestCheck(t *testing.T) {
 	defer r.Write()
 	r.Assumption("groups are independent (checked by C06); single-parent pipelines are Kahn networks, so one execution per input covers all goroutine schedules")
 	r.Assumption("the exact recurrence of later window end times is not asserted: an emission is mandatory once data time reached (time of the previous triggering point + every), permitted only if its end is >= previous end + every and <= the triggering point's time; contents are exact for the reported end time")
-	r.Assumption("fillPeriod is only enumerated with period > every (documented: 'only applies if the period is greater than the every value')")
 
 	if rep.ReplayPath() != "" {
 		var rr struct{ Ring []string }
